@@ -13,7 +13,7 @@ from vf.ref import astshape
 
 ID = "C12"
 BOUNDS = {
-    "quick": "70 near-miss seed documents (one or two violations of each specified rule) + every ordered pair of 30 of them + type-directed (incl. ill-typed) operations with <=1 deviation + grammar-random executable documents with <=1 deviation + single-token deletions of 12 seeds; rule sets: each of the 32 rules alone, every ordered pair (seeds), full set in 6 orders; max_errors 0..n+1",
+    "quick": "75 near-miss seed documents, each also with its definitions in reverse order (one or two violations of each specified rule) + every ordered pair of 30 of them + type-directed (incl. ill-typed) operations with <=1 deviation + grammar-random executable documents with <=1 deviation + single-token deletions of 12 seeds; rule sets: each of the 32 rules alone, every ordered pair (seeds), full set in 6 orders; max_errors 0..n+1",
     "thorough": "<=2 deviations; every ordered pair of all seeds; rule triples inside the three interference clusters",
 }
 RULE = (
@@ -27,7 +27,7 @@ ASSUMPTIONS = [
     "the union law is checked on the multiset of (message, locations); order of errors is only compared for the max_errors prefix law",
 ]
 
-SCHEMA = execschemas.S1.replace("type Query {", "type Mutation { m(a: Int): Int }\ntype Subscription { s: Int t: Int }\ninput In { p: Int = 3, q: [Int!], r: In }\ndirective @defer(if: Boolean! = true, label: String) on FRAGMENT_SPREAD | INLINE_FRAGMENT\ndirective @stream(if: Boolean! = true, label: String, initialCount: Int! = 0) on FIELD\ndirective @d(x: Int) repeatable on FIELD | QUERY\ndirective @once on FIELD\ntype Query { arg(i: Int!, o: In, l: [Int]): Int ")
+SCHEMA = execschemas.S1.replace("type Query {", "type Mutation { m(a: Int): Int }\ntype Subscription { s: Int t: Int }\ninput In { p: Int = 3, q: [Int!], r: In }\ninput One @oneOf { i: Int, s: String }\ndirective @defer(if: Boolean! = true, label: String) on FRAGMENT_SPREAD | INLINE_FRAGMENT\ndirective @stream(if: Boolean! = true, label: String, initialCount: Int! = 0) on FIELD\ndirective @d(x: Int) repeatable on FIELD | QUERY\ndirective @once on FIELD\ntype Query { arg(i: Int!, o: In, l: [Int]): Int one(o: One, n: Int): Int ")
 
 SEEDS = [
     # valid
@@ -103,6 +103,12 @@ SEEDS = [
     "{ ...on Query { ...on Mutation { m } } }",
     "{ a { __typename @stream } __type(name: 1) { name } __nope }",
     "{ a { peers @stream(initialCount: -1) { id } } }",
+    # fragments defined BEFORE the operation that uses them, variables used inside fragments, OneOf variables
+    "fragment F on Query { one(n: $n) } query ($n: Int, $o: One) { ...F x: one(o: $o) }",
+    "fragment F on Query { arg(i: $n) } query ($o: One, $n: Int) { ...F one(o: $o) }",
+    "fragment F on Query { one(o: {i: $n}) } query ($n: Int) { ...F }",
+    "fragment G on A { self { ...H } } fragment H on A { id @skip(if: $s) } query ($s: Boolean!, $o: One) { a { ...G } one(o: $o) }",
+    "query ($o: One = {i: 1}, $p: One) { one(o: $o) y: one(o: $p) z: one(o: {i: 1, s: \"x\"}) }",
 ]
 
 
@@ -158,6 +164,19 @@ def add_descriptions(text):
     if "=" not in head:  # (a default value may itself contain braces/variables - keep it simple and skip those)
         head = re.sub(r"([(,]\s*)\$", r'\1"""v""" $', head)
     return head + brace + rest
+
+
+def reversed_definitions(text):
+    """The same document with its definitions in reverse order (None if it has a single definition)."""
+    from graphql import GraphQLSyntaxError, parse
+
+    try:
+        doc = parse(text)
+    except GraphQLSyntaxError:
+        return None
+    if len(doc.definitions) < 2:
+        return None
+    return " ".join(text[d.loc.start:d.loc.end] for d in reversed(doc.definitions))
 
 
 def check_doc(text, sname, res, viol, pairs=True, tier="quick"):
@@ -317,6 +336,9 @@ def run_shard(shard, tier):
 
     if kind == "seed":
         check_doc(SEEDS[arg], "C12", res, viol, pairs=True, tier=tier)
+        rev = reversed_definitions(SEEDS[arg])
+        if rev:
+            check_doc(rev, "C12", res, viol, pairs=True, tier=tier)
         res.states += 1
         res.transitions += 1
         if arg == 38:
